@@ -491,7 +491,7 @@ pub fn mem_driver(args: &[String]) -> i32 {
 }
 
 fn massif_crosscheck(rep: &mut Report) {
-    let exe = format!("{}/target/monrel/pdsmon", crate::VERIF_DIR);
+    let exe = format!("{}/target/monrel/pdsmon", crate::verif_dir());
     let cases: Vec<Vec<String>> = vec![
         vec!["cuckoo".into(), "4".into(), "65536".into(), "8".into()],
         vec!["cuckoo".into(), "4".into(), "65536".into(), "32".into()],
